@@ -81,6 +81,26 @@ class FakeFile:
         return iter(self.readlines())
 
 
+class FailingFile(FakeFile):
+    """a procfs file that can be opened but whose every read fails (ESRCH: the task went away between open() and read())"""
+
+    def __init__(self, k, path, code=errno.ESRCH):
+        FakeFile.__init__(self, k, path, b"", True)
+        self.code = code
+
+    def _gate(self):
+        FakeFile._gate(self)
+        raise oserr(self.code, self.path)
+
+    def __iter__(self):
+        self._gate()
+
+
+def fails_on_read(k, path, code=errno.ESRCH):
+    """value for k.files[path]: open() succeeds, read()/readline()/iteration raise OSError(code)"""
+    return lambda: FailingFile(k, path, code)
+
+
 class StatResult:
     def __init__(self, mode=_stat.S_IFREG | 0o644, rdev=0, dev=0):
         self.st_mode, self.st_rdev, self.st_dev = mode, rdev, dev
@@ -169,6 +189,8 @@ class Kernel:
                 data = data()
             if isinstance(data, BaseException):
                 raise data
+            if isinstance(data, FakeFile):
+                return data
             return FakeFile(self, fname, data, "b" in mode)
         if self._known_space(fname):
             raise oserr(errno.ENOENT, fname)
@@ -276,6 +298,8 @@ class Kernel:
                 raise OverflowError("signed integer is greater than maximum")
             for p in sorted(self.procs):
                 if bool(pid == p):
+                    if p in getattr(self, "denied", ()):
+                        raise oserr(errno.EPERM)
                     self.kills.append((p, sig))
                     return
             raise oserr(errno.ESRCH)
